@@ -12,7 +12,11 @@ A replay dict is self-contained:
   {"kind": "list"|"dict", "field": <name in LIST_FIELDS / DICT_FIELDS>, "init": [...], "ops": [...],
    "obligation": ..., "witness_key": ...}
 """
+import contextlib
+import itertools
 import json
+import signal
+import threading
 
 from pyvc.raclib import Recorder, sandbox, strict_eq
 
@@ -133,7 +137,62 @@ def mk_iterable(kind, items):
 
 _SCHEMAS = {}
 KIND_CLASS = {"list": "sequence", "tuple": "sequence", "iter": "iterator", "gen": "iterator",
-              "same": "same-field-proxy", "diff": "other-field-proxy"}
+              "same": "same-field-proxy", "diff": "other-field-proxy",
+              # iterables that read the receiver itself, lazily, while the operation runs
+              "self": "receiver-itself", "self-iter": "iterator-over-receiver", "self-reversed": "reversed-receiver",
+              "self-gen": "generator-over-receiver", "self-gen-filter": "filtering-generator-over-receiver",
+              "self-gen-map": "mapping-generator-over-receiver", "self-items": "items-view-of-receiver"}
+
+
+class _Timeout(BaseException):
+    """an operation on the proxy did not terminate in time: the case is left undecided, never reported"""
+
+
+@contextlib.contextmanager
+def _guard(seconds=0.5):
+    """bound the run time of one operation whose iterable reads the receiver (a lazily consumed iterable over a
+    growing container need not terminate); only available in the main thread"""
+    if threading.current_thread() is not threading.main_thread() or not hasattr(signal, "setitimer"):
+        yield
+        return
+
+    def on_alarm(signum, frame):
+        raise _Timeout()
+    old = signal.signal(signal.SIGALRM, on_alarm)
+    signal.setitimer(signal.ITIMER_REAL, seconds)
+    try:
+        yield
+    finally:
+        signal.setitimer(signal.ITIMER_REAL, 0)
+        signal.signal(signal.SIGALRM, old)
+
+
+def raw_of(spec, v):
+    """an acceptable raw (un-normalised) spelling of a normalised value: nrm(spec, raw_of(spec, v)) == v"""
+    if v is None or spec is None:
+        return v
+    t = spec["t"]
+    if t == "Int":
+        return str(v)
+    if t == "String":
+        return v.lower() if spec.get("case") == "upper" else v
+    if t == "Bool":
+        return "yes" if v else "no"
+    if t == "Bytes":
+        return v.decode()
+    if t == "List":
+        return [raw_of(spec["item"], x) for x in v]
+    raise ValueError(t)
+
+
+def over(kind, c, f=None, limit=None):
+    """a lazily evaluated iterable over the live container `c` (list side); f maps the items of the mapping kind"""
+    if kind == "self":
+        return c
+    it = {"self-iter": lambda: iter(c), "self-reversed": lambda: reversed(c), "self-gen": lambda: (x for x in c),
+          "self-gen-filter": lambda: (x for i, x in enumerate(c) if i % 2 == 0),
+          "self-gen-map": lambda: (f(x) for x in c)}[kind]()
+    return itertools.islice(it, limit) if limit else it
 
 
 def same(a, b):
@@ -177,8 +236,12 @@ class ListCase:
 
     def source(self, src):
         """-> (argument for the proxy, argument for the model) for an iterable source description"""
-        raws = dec(src["a"])
         kind = src["kind"]
+        if kind.startswith("self"):                         # reads the receiver / the model itself, lazily
+            spec = self.spec
+            return (over(kind, self.p, lambda x: raw_of(spec, x), src.get("limit")),
+                    over(kind, self.m, lambda x: nrm(spec, raw_of(spec, x)), src.get("limit")))
+        raws = dec(src["a"])
         norm = [nrm(self.spec, x) for x in raws]
         if kind == "same":                                  # typed container of the same field (another configuration)
             other = self.schema()
@@ -215,6 +278,8 @@ class ListCase:
             return both(lambda: p.__setitem__(i, a), lambda: mod.__setitem__(i, nrm(spec, a)))
         if m in ("extend", "iadd", "setslice", "add"):
             ap, am = self.source(op["src"])
+            if op["src"]["kind"].startswith("self"):
+                both = self._guarded(both)
             if m == "extend":
                 return both(lambda: p.extend(ap), lambda: mod.extend(am))
             if m == "iadd":
@@ -250,6 +315,13 @@ class ListCase:
         if m in ("reverse", "clear"):
             return both(getattr(p, m), getattr(mod, m))
         raise ValueError(m)
+
+    @staticmethod
+    def _guarded(both):
+        def run(fp, fm):
+            with _guard():
+                return both(fp, fm)
+        return run
 
     def queries(self):
         """[(query name, value on proxy, value on model)]"""
@@ -322,6 +394,7 @@ def list_ops(field, level):
                     ops.append({"m": "setslice", "s": [0, 1], "src": src})
                 if kind in ("list", "same", "diff"):
                     ops.append({"m": "add", "src": src})
+        ops += list_self_ops(0)
         ops += [{"m": "mul", "n": 2}, {"m": "mul", "n": 0}, {"m": "imul", "n": 2}, {"m": "copy"}, {"m": "pop"},
                 {"m": "pop", "i": 0}, {"m": "remove", "k": 0}, {"m": "remove", "k": 9}, {"m": "delidx", "i": 0},
                 {"m": "delidx", "i": 7}, {"m": "delslice", "s": [0, 2]}, {"m": "sort"},
@@ -336,7 +409,33 @@ def list_ops(field, level):
             {"m": "setslice", "s": [1, 2], "src": {"kind": "tuple", "a": []}},
             {"m": "add", "src": {"kind": "list", "a": [r1]}}, {"m": "copy"}, {"m": "imul", "n": 2},
             {"m": "pop"}, {"m": "remove", "k": 0}, {"m": "delidx", "i": 0}, {"m": "sort"}, {"m": "reverse"},
-            {"m": "clear"}]
+            {"m": "clear"}] + list_self_ops(1)
+
+
+SELF_KINDS = ("self", "self-iter", "self-reversed", "self-gen", "self-gen-filter", "self-gen-map")
+LAZY_LIMIT = 5                                              # an iterator over a list that grows never ends by itself
+
+
+def list_self_ops(level):
+    """operations whose argument reads the receiver itself while it is being changed"""
+    def src(kind, bounded):
+        return {"kind": kind, "limit": LAZY_LIMIT} if bounded and kind not in ("self", "self-reversed") \
+            else {"kind": kind}
+    if level:
+        return [{"m": "extend", "src": src("self-gen-map", True)},
+                {"m": "setslice", "s": [None, None], "src": src("self-gen-filter", False)}]
+    ops = []
+    for kind in SELF_KINDS:
+        ops.append({"m": "extend", "src": src(kind, True)})
+        ops.append({"m": "iadd", "src": src(kind, True)})
+        ops.append({"m": "setslice", "s": [None, None], "src": src(kind, False)})
+        if kind in ("self", "self-gen", "self-reversed", "self-gen-map"):
+            ops.append({"m": "add", "src": src(kind, False)})
+    for kind in ("self", "self-reversed", "self-gen-map"):
+        ops.append({"m": "setslice", "s": [0, 1], "src": src(kind, False)})
+        ops.append({"m": "setslice", "s": [1, 1], "src": src(kind, False)})
+    ops.append({"m": "setslice", "s": [1, None], "src": src("self-gen", False)})
+    return ops
 
 
 def list_method(op):
@@ -398,8 +497,18 @@ class DictCase:
         return nrm(self.vspec, v)
 
     def source(self, src):
-        pairs = [tuple(x) for x in dec(src["a"])]
         kind = src["kind"]
+        if kind.startswith("self"):                         # reads the receiver / the model itself, lazily
+            def respell(kv):
+                return raw_of(self.kspec, kv[0]), raw_of(self.vspec, kv[1])
+
+            def renorm(kv):
+                return self.nk(raw_of(self.kspec, kv[0])), self.nv(raw_of(self.vspec, kv[1]))
+            make = {"self": lambda c, f: c, "self-items": lambda c, f: c.items(),
+                    "self-gen": lambda c, f: ((k, v) for k, v in c.items()),
+                    "self-gen-map": lambda c, f: (f(kv) for kv in c.items())}[kind]
+            return make(self.p, respell), make(self.m, renorm)
+        pairs = [tuple(x) for x in dec(src["a"])]
         norm = [(self.nk(k), self.nv(v)) for k, v in pairs]
         if kind == "map":
             return dict(pairs), dict(norm)
@@ -447,6 +556,8 @@ class DictCase:
             nkw = {self.nk(k): self.nv(v) for k, v in kw.items()}
             if "src" in op:
                 ap, am = self.source(op["src"])
+                if op["src"]["kind"].startswith("self"):
+                    both = ListCase._guarded(both)
                 if m == "update":
                     def fm():
                         mod.update(am)
@@ -481,7 +592,10 @@ class DictCase:
             except Exception as e:
                 return ("exc", type(e).__name__)
         probe = next(iter(mod)) if mod else self.nk(dec(self.keys[0]))
-        qs = [("__len__", len), ("__iter__", lambda x: [k for k in x]), ("keys", lambda x: list(x.keys())),
+        unset = next((k for k, v in mod.items() if v is None), probe)      # a present key holding None, if any
+        qs = [("get", lambda x: x.get(unset, 0)), ("__getitem__", lambda x: x[unset]),
+              ("__contains__", lambda x: unset in x), ("setdefault", lambda x: dict(x).setdefault(unset, 0)),
+              ("__len__", len), ("__iter__", lambda x: [k for k in x]), ("keys", lambda x: list(x.keys())),
               ("values", lambda x: list(x.values())), ("items", lambda x: list(x.items())), ("__bool__", bool),
               ("__getitem__", lambda x: x[probe]), ("get", lambda x: x.get(probe)),
               ("get", lambda x: x.get("nosuchkey", 0)), ("__contains__", lambda x: probe in x),
@@ -541,6 +655,7 @@ def dict_ops(field, level):
                 src = {"kind": kind, "a": a}
                 ops.append({"m": "update", "src": src})
                 ops.append({"m": "ior", "src": src})
+        ops += dict_extra_ops(field, 0)
         ops += [{"m": "update", "kw": {kwk[0]: v1}}, {"m": "update", "kw": {}},
                 {"m": "update", "src": {"kind": "map", "a": [[k2, v2]]}, "kw": {kwk[0]: v1}},
                 {"m": "update", "src": {"kind": "gen", "a": [[k2, v2]]}, "kw": {kwk[0]: v0, kwk[-1]: v1}},
@@ -553,7 +668,40 @@ def dict_ops(field, level):
             {"m": "update", "src": {"kind": "diff", "a": dpairs}}, {"m": "update", "src": {"kind": "own", "a": pairs}},
             {"m": "update", "kw": {kwk[0]: v1}}, {"m": "ior", "src": {"kind": "map", "a": [[k0, v0]]}},
             {"m": "ior", "src": {"kind": "same", "a": pairs}},
-            {"m": "pop", "k": k0}, {"m": "popitem"}, {"m": "delitem", "k": k1}, {"m": "copy"}, {"m": "clear"}]
+            {"m": "pop", "k": k0}, {"m": "popitem"}, {"m": "delitem", "k": k1}, {"m": "copy"}, {"m": "clear"}] + \
+        dict_extra_ops(field, 1)
+
+
+def dict_extra_ops(field, level):
+    """(1) arguments that read the receiver itself, (2) None values / keys that hold None, (3) update() with
+    positional and keyword arguments whose keys overlap (also only after key normalisation)"""
+    kname, vname, keys = DICT_FIELDS[field]
+    F = _fields()
+    vals = F[vname][1] if vname else [1, "v", [1], 1]
+    k0, k1, k2 = keys[0], keys[1], keys[2]
+    v0, v1, v2 = vals[0], vals[1], vals[2]
+    ko = [k for k in (k1, k2, k0) if isinstance(k, str)][0]                 # a key usable as a keyword
+    alias = ko.lower() if kname and ko.lower() != ko else ko                # equal to `ko` after normalisation
+    if level:
+        return [{"m": "update", "src": {"kind": "self-gen-map"}}, {"m": "setitem", "k": k0, "v": None},
+                {"m": "setdefault", "k": k0, "v": v1},
+                {"m": "update", "src": {"kind": "map", "a": [[ko, v1], [k0, v2]]}, "kw": {alias: v0}}]
+    ops = []
+    for kind in ("self", "self-items", "self-gen", "self-gen-map"):
+        ops.append({"m": "update", "src": {"kind": kind}})
+        ops.append({"m": "ior", "src": {"kind": kind}})
+    ops.append({"m": "update", "src": {"kind": "self-items"}, "kw": {alias: v0}})
+    ops += [{"m": "setitem", "k": k0, "v": None}, {"m": "setitem", "k": k1, "v": None},
+            {"m": "setdefault", "k": k2, "v": None}, {"m": "setdefault", "k": k0, "v": None},
+            {"m": "update", "src": {"kind": "map", "a": [[k0, None], [k1, v1]]}},
+            {"m": "update", "src": {"kind": "gen", "a": [[k1, None]]}},
+            {"m": "update", "kw": {ko: None}}, {"m": "ior", "src": {"kind": "map", "a": [[k0, None]]}}]
+    for kind in ("map", "list", "gen"):
+        ops.append({"m": "update", "src": {"kind": kind, "a": [[ko, v1], [k0, v2]]}, "kw": {ko: v0}})
+        if alias != ko:
+            ops.append({"m": "update", "src": {"kind": kind, "a": [[ko, v1], [k0, v2]]}, "kw": {alias: v0}})
+    ops.append({"m": "update", "src": {"kind": "map", "a": [[ko, v1]]}, "kw": {ko: None}})
+    return ops
 
 
 def dict_method(op):
@@ -564,15 +712,15 @@ def dict_argclass(op):
     m = op["m"]
     if m == "setdefault":
         return "key-and-default" if "v" in op else "key-only"
-    if m == "ior":
+    if m == "ior" and not op["src"]["kind"].startswith("self"):
         return "argument-needing-normalisation"
-    if m == "update":
+    if m in ("update", "ior"):
         if "src" not in op:
             return "keywords" if op.get("kw") else "no-arguments"
         k = op["src"]["kind"]
         c = {"map": "mapping", "list": "pairs-sequence", "tuple": "pairs-sequence", "iter": "pairs-iterator",
              "gen": "pairs-iterator", "same": "same-field-proxy", "own": "same-config-proxy",
-             "diff": "other-field-proxy"}[k]
+             "diff": "other-field-proxy"}.get(k) or KIND_CLASS[k]
         return c + ("+keywords" if op.get("kw") else "")
     return "item" if "v" in op else "-"
 
@@ -594,13 +742,18 @@ def run_case(case):
             f["step"] = -1
         return fails, 0
     for n, op in enumerate(case["ops"]):
-        (rp, rm) = c.apply(op)
+        before = c.m.copy()
         ob, wk = "%s.%s" % (cls, method(op)), argclass(op)
+        if not is_list and "k" in op and before.get(c.nk(dec(op["k"])), 0) is None:
+            wk += "+present-key-holding-None"
+        (rp, rm) = c.apply(op)
         fails = []
         if rm[0] == "exc":
-            # the arguments are not acceptable to the built-in in this state (IndexError/KeyError/ValueError): the
-            # property is silent about the outcome; the contents are still compared below (the model is unchanged)
-            pass
+            # the arguments are not acceptable to the built-in in this state (IndexError/KeyError/ValueError/
+            # RuntimeError): the property is silent about the outcome.  If the built-in left its contents alone the
+            # proxy's contents are still compared below; if it stopped half-way the case ends without a verdict.
+            if not same(before, c.m):
+                return [], n + 1
         elif rp[0] == "exc":
             fails.append({"obligation": ob + "/raise:C17.accepts-what-builtin-accepts", "witness_key": wk,
                           "what": "%s: built-in returns %s, proxy raises %s" % (json.dumps(op), short(rm[1]), rp[1])})
@@ -651,6 +804,21 @@ def _compare_state(c, cls, meth, wk, op, queries):
 
 # --------------------------------------------------------------------------------------------- enumeration
 
+LEN3_LIST = ("Int", "String/upper", "List<Int>")           # quick tier: length-3 sequences for these fields only
+LEN3_DICT = ("String/upper->Int", "->String/upper", "->Bool")
+
+
+def pairs2(full, small, wide, main):
+    """length-2 sequences: full x full for the main fields from the populated value, full x small + small x full for
+    the other fields, small x small from the other initial values"""
+    if not wide:
+        return [(a, b) for a in small for b in small]
+    if main:
+        return [(a, b) for a in full for b in full]
+    out = [(a, b) for a in full for b in small]
+    return out + [(a, b) for a in small for b in full if a not in small or b not in small]
+
+
 def cases(tier):
     F = _fields()
     for field in LIST_FIELDS:
@@ -661,10 +829,9 @@ def cases(tier):
             yield {"kind": "list", "field": field, "init": init, "ops": []}
             for a in full:
                 yield {"kind": "list", "field": field, "init": init, "ops": [a]}
-            for a in (full if init else small):
-                for b in (full if init else small):
-                    yield {"kind": "list", "field": field, "init": init, "ops": [a, b]}
-        for a in small:
+            for a, b in pairs2(full, small, bool(init), tier != "quick" or field in LEN3_LIST):
+                yield {"kind": "list", "field": field, "init": init, "ops": [a, b]}
+        for a in small if tier != "quick" or field in LEN3_LIST else ():
             for b in small:
                 for c in small:
                     yield {"kind": "list", "field": field, "init": inits[1], "ops": [a, b, c]}
@@ -672,18 +839,18 @@ def cases(tier):
         kname, vname, keys = DICT_FIELDS[field]
         vals = F[vname][1] if vname else [1, "v", [1], 1]
         full, small = dict_ops(field, 0), dict_ops(field, 1)
-        inits = [[], [[keys[0], vals[0]], [keys[2], vals[1]]]]
+        inits = [[], [[keys[0], vals[0]], [keys[2], vals[1]]], [[keys[0], None], [keys[2], vals[1]], [keys[1], None]]]
         for init in inits:
+            wide = init == inits[1]
             yield {"kind": "dict", "field": field, "init": init, "ops": []}
             for a in full:
                 yield {"kind": "dict", "field": field, "init": init, "ops": [a]}
-            for a in (full if init else small):
-                for b in (full if init else small):
-                    yield {"kind": "dict", "field": field, "init": init, "ops": [a, b]}
-        for a in small:
+            for a, b in pairs2(full, small, wide, tier != "quick" or field in LEN3_DICT):
+                yield {"kind": "dict", "field": field, "init": init, "ops": [a, b]}
+        for a in small if tier != "quick" or field in LEN3_DICT else ():
             for b in small:
                 for c in small:
-                    yield {"kind": "dict", "field": field, "init": inits[1], "ops": [a, b, c]}
+                    yield {"kind": "dict", "field": field, "init": inits[1 + (field == "->Bool")], "ops": [a, b, c]}
 
 
 def random_case(rng):
@@ -711,19 +878,29 @@ def rac(tier="quick", seed=0):
              "contents, operation sequence); after every operation the built-in accepts: return value (identity "
              "for += / *= / |=), contents + order + length; proxy must not raise; copy() and + results must be "
              "proxies of the same field that reject an unacceptable item and normalise an acceptable one; at the "
-             "end of every sequence 15 queries are compared (every prefix of a sequence is a case of its own); "
+             "end of every sequence 15 (list) / 19 (dict) queries are compared (every prefix of a sequence is a case of its own); "
              "non-trivial = at least one operation ran (or the case checks an initial value)",
         bound="operations: append, insert, extend, +=, +, index and slice assignment (plain, empty, extended slices; "
               "index object with __index__), *, *=, copy, pop, remove, del index/slice, sort, reverse, clear; "
               "item assignment, update(mapping | pairs | keywords | both | nothing), setdefault(k[, d]), |=, pop, "
               "popitem, del, clear, copy; iterable kinds list, tuple, iterator, generator, proxy of the same field "
-              "(other and same configuration), proxy of a different field; all sequences of length 1 from an empty "
-              "and a populated value, of length 2 over the full pool from the populated value (reduced pool from the "
-              "empty one), of length 3 over a reduced pool of 18 (list) / 14 (dict) operations; thorough: + seeded "
+              "(other and same configuration), proxy of a different field, and iterables that read the receiver itself "
+              "lazily (the receiver, iter(p), reversed(p), plain / filtering / re-spelling generators over p, for "
+              "extend and += cut off after 5 items; p.items(), generators over p.items() and p for update and |=), "
+              "modelled by the same iterable over the built-in; None values and keys that hold None (setdefault, "
+              "update, get, in, []); update(positional, **keywords) with keys that overlap, also only after "
+              "normalisation; all sequences of length 1 from an empty "
+              "and a populated value, of length 2 over the full pool from the populated value for three fields of each "
+              "kind (full x reduced and reduced x full for the other two; reduced pool from the other initial "
+              "values), of length 3 over a reduced pool of 20 (list) / 18 (dict) operations for three fields of each "
+              "kind; an operation that does not end within 0.5 s leaves its case undecided (result key undecided), never a "
+              "violation; thorough: all fields at length 3, + seeded "
               "random sequences of length 5 until the budget is used",
         tier=tier, seed=seed)
     steps = 0
     _SCHEMAS.clear()
+    del UNDECIDED[:]
+    NONTERMINATING.clear()
     with sandbox():
         for case in cases(tier):
             steps += _one(rec, case)
@@ -732,11 +909,30 @@ def rac(tier="quick", seed=0):
                 steps += _one(rec, random_case(rec.rng))
     res = rec.result(exhaustive=False)
     res["steps"] = steps
+    res["undecided"] = list(UNDECIDED[:20])                 # cases in which an operation did not terminate in time
+    res["undecided_count"] = len(UNDECIDED)
     return res
 
 
+UNDECIDED = []
+NONTERMINATING = {}                                         # (method, kind of self-reading iterable) -> timeouts seen
+
+
+def _self_ops(case):
+    return [(op["m"], op["src"]["kind"]) for op in case["ops"] if op.get("src", {}).get("kind", "").startswith("self")]
+
+
 def _one(rec, case):
-    fails, n = run_case(case)
+    try:
+        if any(NONTERMINATING.get(sig, 0) >= 2 for sig in _self_ops(case)):
+            raise _Timeout()                                # this operation form already ran into the time limit twice
+        fails, n = run_case(case)
+    except _Timeout:                                        # never a violation: listed as undecided in the result
+        if len(_self_ops(case)) == 1 or len(case["ops"]) == 1:
+            for sig in _self_ops(case):
+                NONTERMINATING[sig] = NONTERMINATING.get(sig, 0) + 1
+        UNDECIDED.append(case)
+        fails, n = [], 0
     rec.case(key=json.dumps(case, sort_keys=True), nontrivial=n > 0 or not case["ops"],
              sample=case if len(case["ops"]) == 3 and rec.evaluations % 1499 == 0 else None)
     for f in fails:
